@@ -276,7 +276,11 @@ impl Run {
     /// decode a CosmosMsg (serde form) into a record [k, tag, a, b, amt]:
     /// k = "msg" (a proposal message, identified by tag), "take" (cw20 pull a -> b), "refund" (deposit token paid to a)
     fn tag(&self, m: &Value) -> Value {
-        let rec = |k: &str, tag: String, a: String, b: String, amt: i64| json!({"k":k,"tag":tag,"a":a,"b":b,"amt":amt});
+        // harmless = dispatching it cannot fail (a note to the sink, a small bank send the multisig can afford)
+        let rec = |k: &str, tag: String, a: String, b: String, amt: i64| {
+            let harmless = k != "msg" || tag.starts_with("sink:") || tag == "bank:sink:1:uother";
+            json!({"k":k,"tag":tag,"a":a,"b":b,"amt":amt,"harmless":harmless})
+        };
         let num = |v: &Value| -> i64 { v.as_str().and_then(|x| x.parse::<i64>().ok()).unwrap_or(-1) };
         if let Some(ex) = m.get("wasm").and_then(|x| x.get("execute")) {
             let to = self.w.name_of(ex["contract_addr"].as_str().unwrap_or(""));
